@@ -497,6 +497,13 @@ def parseRange {α} (extract : Str → Option (α × Str)) : Nat → Str → Opt
       | none => none
       | some vs => some (v :: vs)
 
+/-- `s >> b` for a `bool` without `boolalpha` (the elements of `std::array<bool,n>` in `parseRange`): libstdc++'s
+    `num_get::do_get(bool&)` extracts a `long` and accepts the values 0 and 1 only -/
+def extractBool01 (s : Str) : Option (Bool × Str) :=
+  match extractInt ⟨true, 64⟩ s with
+  | none => none
+  | some (v, rest) => if v = 0 then some (false, rest) else if v = 1 then some (true, rest) else none
+
 def toLowerC (c : Char) : Char := if 65 ≤ c.toNat ∧ c.toNat ≤ 90 then Char.ofNat (c.toNat + 32) else c
 
 def tInt : IntTy := ⟨true, 32⟩
